@@ -63,6 +63,7 @@ def run_config(pid, cfg, tier, seed, timeout_ms, max_paths):
     mod = importlib.import_module(f"vcheck.{pid}")
     _install_reset_hook()
     env = SymEnv(timeout_ms=timeout_ms, seed=seed, max_paths=max_paths)
+    env.cross_limit = int(os.environ.get('SYMX_CVC5', '2' if tier == 'thorough' else '0'))
     trace.start()
     t0 = time.time()
     res = {'cfg': cfg, 'label': cfg_label(cfg), 'error': None, 'failures': [], 'weights': None}
@@ -289,6 +290,8 @@ def main(argv=None):
         'inconclusive': st['inconclusive'],
         'solver_queries': st['queries'], 'solver_seconds': round(st['solver_s'], 3),
         'unknown_feasibility_checks': st['unknown_feasibility'],
+        'second_solver_cvc5': {'queries_rechecked': st['cvc5_checked'], 'agree': st['cvc5_agree'], 'unknown': st['cvc5_unknown'],
+                               'disagree': st['cvc5_disagree'], 'seconds': round(st['cvc5_s'], 2)},
         'vacuity_witnesses': st['vacuity_witnesses'],
         'canary_claims': st['canaries'], 'canary_claims_refuted': st['canaries_refuted'],
         'evaluations': st['paths'],
